@@ -708,7 +708,11 @@ class Gen:
         elif kind == "rm_pair" and len(s["pdrs"]) >= 4:
             # any pair, not only the last one: the rules behind the removed ones move up in the stored arrays
             pairs = sorted({(i - 1) // 2 for i in s["pdrs"]})
-            n = r.choice(pairs[1:] + pairs[1:] + pairs) if not getattr(self, "rm_last_only", False) else pairs[-1]
+            # the pair whose PDR made the UPF allocate the UE address stays while pairs without that flag stay (removing it
+            # is the known finding F37, reproduced by its own corpus scenario)
+            alloc = [n_ for n_ in pairs if any(s["pdrs"].get(i, {}).get("ue") == "chv4" for i in (2 * n_ + 1, 2 * n_ + 2))]
+            cand = [n_ for n_ in pairs if n_ not in alloc or len(alloc) >= 2] or [pairs[-1]]
+            n = r.choice(cand) if not getattr(self, "rm_last_only", False) else pairs[-1]
             ids = [i for i in (2 * n + 1, 2 * n + 2) if i in s["pdrs"]]
             ies += [P.grouped(P.REMOVE_PDR, P.u16(P.PDR_ID, i)) for i in ids] + [P.grouped(P.REMOVE_FAR, P.u32(P.FAR_ID, i)) for i in ids]
             for i in ids:
